@@ -25,6 +25,7 @@ class Monitor:
         self.pool_ops = []         # {"kind", "submitted", "gathered", "perm"}
         self.greedy = []           # (old_sorted, new_sorted, result) of pooled/serial _greedy_select_population
         self.generate = []         # (n_requested, n_returned) of _generate_agents
+        self.generated_init = []   # (.., positions) of the _generate_agents calls made while initialising
         self.init_args_mark = None  # number of objective calls seen when _init_population returned
         self.calllog = None
         self.lock = threading.Lock()
@@ -150,6 +151,8 @@ def _wrap_generate_agents(orig):
         r = orig(self, n_agents)
         if m is not None:
             m.generate.append((n_agents, len(r), m.phase))
+            if m.phase == "init":
+                m.generated_init.append((n_agents, len(r), m.phase, [copy.deepcopy(a.position) for a in r]))
         return r
     _generate_agents.__wrapped__ = orig
     return _generate_agents
